@@ -465,7 +465,7 @@ int main(int argc, char **argv)
 	sim_symbols_load();
 	g_pcmap = mmap(NULL, 65536, PROT_READ | PROT_WRITE, MAP_SHARED | MAP_ANONYMOUS, -1, 0);
 	static char out[16384];
-	int timeout_s = atoi(arg_val(argc, argv, "--timeout", "300"));
+	int timeout_s = atoi(arg_val(argc, argv, "--timeout", "90"));
 
 	if(!strcmp(argv[1], "worker")) {
 		const char *profile = arg_val(argc, argv, "--profile", "tw");
